@@ -1,7 +1,8 @@
 """C28 -- a callback error stops streaming and is reported.
 
 Specs: StreamsEachItem / StreamsMemSource / StreamsPBF / StreamsErrgroup (+ StreamsBase), one protocol model per
-function, each with a switch between the code as it stands and the repaired protocol.  Binding B': TLC computes,
+function, each with a switch (cfg.fixed) between the protocol before the repairs fixes/C28-*.diff and the code as it
+stands.  Binding B': TLC computes,
 for every configuration (goroutines, unit sizes, failing items, callback behaviour), the set of observable
 outcomes; every configuration is executed on the real API (worker child process, watchdog) under seeded schedule
 perturbation and judged (a) against the property itself: returns, non-nil iff a callback failed, promptly, and
@@ -17,10 +18,10 @@ META = {
     "engine": "streams",
     "level": "model_checking",
     "text": "Each streaming function is transcribed into a small TLA+ protocol model (one action per channel / lock / "
-            "WaitGroup / errgroup operation). TLC checks the repaired protocols exhaustively over goroutines 1..2(3), "
-            "<= 4(5) units, every failing subset up to size 2(3) and three callback behaviours: no reachable hang, "
-            "error returned iff a callback failed, termination under weak fairness. The models of the code as it "
-            "stands violate these (TLC witnesses = candidates). Every configuration TLC explored is then executed on "
+            "WaitGroup / errgroup operation). TLC checks the repaired protocols exhaustively over goroutines 1..2 (thorough: "
+            "1..3), <= 4 (thorough: 5) units, every failing subset up to size 2 and three callback behaviours: no reachable hang, "
+            "error returned iff a callback failed, termination under weak fairness. The models of the protocols before "
+            "the repairs (commits 77e226d, 3f18754, dd16412) violate these (TLC witnesses = candidates). Every configuration TLC explored is then executed on "
             "the real function under seeded yield/sleep perturbation in a crash/hang-isolated child process and the "
             "observed (returned/err/hang, delivered set) must satisfy the property and be an outcome of the model.",
     "note": "Small scope for the exhaustive part; larger inputs (hundreds of items, 1-4 goroutines) and the world "
@@ -47,7 +48,7 @@ def cfg_text(tier, asis=False):
     """spec/<Module>.cfg (quick) and <Module>AsIs.cfg are files; the thorough bounds are generated."""
     quick = tier == "quick"
     s = "SPECIFICATION Spec\nCONSTANTS\n  MaxG = %d\n  SizeVecs <- %s\n  MaxFail = %d\n" % (
-        2 if quick else 3, "QuickSizes" if quick else "ThoroughSizes", 2 if quick else 3)
+        2 if quick else 3, "QuickSizes" if quick else "ThoroughSizes", 2)
     s += '  Modes = {"item", "once", "sticky"}\n'
     s += "  Variants = {FALSE}\n  JudgeAll = TRUE\n" if asis else "  Variants = {TRUE, FALSE}\n  JudgeAll = FALSE\n"
     return s + "INVARIANT NoHang ReportsError Complete NoSecondCall\nPROPERTY Terminates\nCHECK_DEADLOCK FALSE\n"
@@ -85,7 +86,7 @@ def run(ctx):
     # ------------------------------------------------------------------ 1. model checking (parallel JVMs)
     t1 = time.time()
     # one JVM per module: both variants (cfg.fixed) in one state space, the design properties judged on the repaired
-    # one; plus one small run per module on the protocol as it stands with the properties judged on it (JudgeAll):
+    # one; plus one small run per module on the protocol before the repair with the properties judged on it (JudgeAll):
     # TLC must report a violation there (the candidates; also guards against vacuous properties)
     os.environ.setdefault("JAVA_TOOL_OPTIONS", "-XX:ParallelGCThreads=2 -XX:TieredStopAtLevel=1")
     jobs = []
@@ -117,11 +118,11 @@ def run(ctx):
         if variant == "both" and not r.ok:
             raise Inconclusive("TLC did not complete on %s" % mod)
         if variant == "asis":
-            # the model of the code as it stands (for Errgroup: of the send-without-Done variant) must violate the design
+            # the model of the protocol before the repair (Errgroup: of the send-without-Done variant) must violate the design
             if not r.violated:
                 raise Inconclusive("%s AsIs: TLC found no violation in the model of the defective protocol "
                                    "(vacuous properties?)" % mod)
-            ctx.note("%s, protocol as it stands: TLC reports %s violated" % (mod, r.violated))
+            ctx.note("%s, protocol before the repair: TLC reports %s violated" % (mod, r.violated))
             continue
         outs = r.lines.get("OUTCOME", [])
         if not outs:
@@ -144,7 +145,7 @@ def run(ctx):
     # ------------------------------------------------------------------ 2. cases for the real code
     rng = random.Random(ctx.seed)
     cases = []
-    reps = ctx.pick(2, 6)
+    reps = ctx.pick(2, 4)
     quiet_ms = ctx.pick(300, 500)
 
     def add(c):
@@ -226,8 +227,7 @@ def run(ctx):
         if c["model"] and not v.get("ok") and (":hang:" in v.get("key", "") or ":nil-on-failure:" in v.get("key", "")):
             reproduced.setdefault(c["inst"], set()).add(canon([c["g"], c["sizes"], c["fail"], c["mode"]]))
     ctx.extra_cov["tlc_candidates_reproduced_on_real_code"] = {k: len(v) for k, v in reproduced.items()}
-    ctx.traces_validated = ctx.extra_cov.get("outcome_in_model", 0) + ctx.extra_cov.get(
-        "outcome_only_in_model_of_code_as_it_stands", 0)
+    ctx.traces_validated = ctx.extra_cov.get("outcome_in_model", 0)
 
     # ------------------------------------------------------------------ 4. binding self-test (thorough)
     if not quick:
